@@ -1067,6 +1067,76 @@ fn break_stream(report: &mut Report) -> Option<(String, serde_json::Value)> {
     first
 }
 
+// ------------------------------------------------------------------ stream O: one-off callers (render_str)
+
+/// `render_str(.., autoescape)` sets the flag of the one-off template only: components it calls are
+/// rendered in that mode (like for any caller), templates they include decide by their OWN suffix.
+/// Oracle: the same text as a registered caller template of the same escaping mode, and the text
+/// known by construction.
+fn oneoff_stream(report: &mut Report) -> Option<(String, serde_json::Value)> {
+    let mut first = None;
+    let esc = |s: &str| s.replace('&', "&amp;").replace('<', "&lt;").replace('>', "&gt;").replace('"', "&quot;").replace('\'', "&#39;");
+    let calls = [
+        "{{ <outer a={d}/> }}",
+        "{% set a = d %}{% <outerb a={d}> %}b:{{ d }}{% include \"part.txt\" %}{% include \"part.html\" %}{% </outerb> %}",
+        "{% set a = d %}{% include \"part.txt\" %}|{% include \"part.html\" %}|{% include \"viacomp.txt\" %}|{% include \"viacomp.html\" %}",
+        "{% set r = <outer a={d}/> %}{% for x in [r] %}{{ x }}{% endfor %}",
+    ];
+    for def_sfx in [".txt", ".html"] {
+        let mut tera = new_tera();
+        let mut list: Vec<(String, String)> = vec![
+            (format!("defs{def_sfx}"), "{% component outer(a) %}c:{{ a }}|{% include \"part.txt\" %}|{% include \"part.html\" %}|{{ <inner a={a}/> }}{% endcomponent outer %}{% component inner(a) %}n:{{ a }}{% include \"part.txt\" %}{% include \"part.html\" %}{% endcomponent inner %}{% component outerb(a) %}[{{ body }}]{{ <inner a={a}/> }}{% endcomponent outerb %}".to_string()),
+            ("part.txt".into(), "t:{{ a }}".into()),
+            ("part.html".into(), "h:{{ a }}".into()),
+            ("viacomp.txt".into(), "vt:{{ <inner a={a}/> }}".into()),
+            ("viacomp.html".into(), "vh:{{ <inner a={a}/> }}".into()),
+        ];
+        for (k, c) in calls.iter().enumerate() {
+            list.push((format!("main{k}.html"), c.to_string()));
+            list.push((format!("main{k}.txt"), c.to_string()));
+        }
+        if let Err(e) = tera.add_raw_templates(list) {
+            return Some((format!("one-off stream: templates do not register: {e:?}"), serde_json::json!({"stream": "oneoff"})));
+        }
+        for d in ["<>&\"'", "a<b", "plain"] {
+            let mut ctx = Context::new();
+            ctx.insert("d", d);
+            for flag in [true, false] {
+                let m = |s: &str| if flag { esc(s) } else { s.to_string() }; // the caller's mode
+                let inner_by = |mode_on: bool| { let x = if mode_on { esc(d) } else { d.to_string() }; format!("n:{x}t:{d}h:{}", esc(d)) };
+                let outer = format!("c:{}|t:{d}|h:{}|{}", m(d), esc(d), inner_by(flag));
+                let wants = [
+                    outer.clone(),
+                    format!("[b:{}t:{d}h:{}]{}", m(d), esc(d), inner_by(flag)),
+                    format!("t:{d}|h:{}|vt:{}|vh:{}", esc(d), inner_by(false), inner_by(true)),
+                    outer.clone(),
+                ];
+                for (k, c) in calls.iter().enumerate() {
+                    report.evaluations += 1;
+                    report.oracle_checks += 2;
+                    let one = match catch(std::panic::AssertUnwindSafe(|| tera.render_str(c, &ctx, flag))) {
+                        Ok(Ok(s)) => format!("ok {s}"),
+                        Ok(Err(e)) => format!("err {}", err_text(&e)),
+                        Err(p) => format!("panic {p}"),
+                    };
+                    let reg = render_with(&tera, &format!("main{k}{}", if flag { ".html" } else { ".txt" }), &ctx);
+                    let want = format!("ok {}", wants[k]);
+                    if one != reg || one != want {
+                        report.oracle_failures += 1;
+                        if first.is_none() {
+                            first = Some((
+                                format!("one-off caller: render_str(`{c}`, autoescape = {flag}) with d = {d:?} (components defined in defs{def_sfx}) gives `{one}`; the registered caller main{k}{} in the same escaping mode gives `{reg}`; by construction (component in the caller's mode, every included template by its own suffix) `{want}`", if flag { ".html" } else { ".txt" }),
+                                serde_json::json!({"stream": "oneoff", "call": c, "flag": flag, "data": d}),
+                            ));
+                        }
+                    }
+                }
+            }
+        }
+    }
+    first
+}
+
 // ------------------------------------------------------------------ recursion (child process)
 
 #[derive(Clone, Debug)]
@@ -1381,6 +1451,7 @@ fn main() {
                 match other {
                     "isolation" => println!("{:?}", isolation(&mut rng, 2000).1),
                     "escaping" => println!("{:?}", escaping(&mut report)),
+                    "oneoff" => println!("{:?}", oneoff_stream(&mut report)),
                     "break" => println!("{:?}", break_stream(&mut report)),
                     "history" => println!("{:?}", history_stream(&mut report)),
                     "nested" => println!("{:?}", nested_capture_stream(&mut report, 3)),
@@ -1572,6 +1643,11 @@ fn main() {
     // ---- stream E
     if let Some((msg, r)) = escaping(&mut report) {
         report.oracle_failures += 1;
+        report.violation("property", msg, r);
+    }
+
+    // ---- stream O: one-off callers
+    if let Some((msg, r)) = oneoff_stream(&mut report) {
         report.violation("property", msg, r);
     }
 
